@@ -195,6 +195,16 @@ impl Ctx {
             s.finish()
         };
         let twin: Uint<B, L> = num::to_uint(n);
+        // the Bits wrapper and references must agree with the value they wrap
+        let hb = |x: &ruint::Bits<B, L>| {
+            let mut s = std::collections::hash_map::DefaultHasher::new();
+            x.hash(&mut s);
+            s.finish()
+        };
+        let (bu, bt) = (ruint::Bits::from(*u), ruint::Bits::from(twin));
+        if !(bu == bt && hb(&bu) == hb(&bt) && &u == &&twin && !(u != &twin) && u.max(&twin) == u.min(&twin)) {
+            self.violate("ORDER", format!("{what}: Bits / reference equality of 0x{} disagrees with the value", num::hex(n)));
+        }
         if !(*u == twin && h(u) == h(&twin) && u.cmp(&twin) == std::cmp::Ordering::Equal) {
             self.violate("ORDER", format!("{what}: value 0x{} is not ==/hash/cmp-equal to the same number built by from_limbs", num::hex(n)));
         }
